@@ -41,3 +41,14 @@ Proof. unfold S. induction 1 as [|r rs Hr _ IH]; simpl; [lra|].
   assert (0 <= w r * ((resid r - av * r_a r - sc * r_s r) * (resid r - av * r_a r - sc * r_s r))) by (apply Qmult_le_0_compat; [exact Hr|apply sqnn]).
   lra. Qed.
 Print Assumptions C08_exact_2d.
+
+(* log-normal bias of flag-1 data with a uniform relative error: every log flux is lowered by the same b = (sigma/F)^2/(2 ln10);
+   with the scale pattern -2 this is a planted source at scale s0 + b/2 *)
+Lemma biased_is_planted A0 s0 b rows :
+  Forall (fun r => resid r == A0 * r_a r + s0 * r_s r - b /\ r_s r == -2) rows -> Forall (planted A0 (s0 + b / 2)) rows.
+Proof. induction 1 as [|r rs [Hr Hs] _ IH]; constructor; [|exact IH]. unfold planted. rewrite Hr, Hs. field. Qed.
+
+Theorem C08_bias_2d lo hi A0 s0 b rows :
+  Forall (fun r => resid r == A0 * r_a r + s0 * r_s r - b /\ r_s r == -2) rows -> 0 < m22 rows -> 0 < det rows -> lo <= A0 <= hi ->
+  let '(av, sc) := fit2_avsc lo hi rows in av == A0 /\ sc == s0 + b / 2 /\ S rows av sc == 0.
+Proof. intros H. apply C08_exact_2d. now apply biased_is_planted. Qed.
